@@ -147,6 +147,28 @@ func genDPR(c *gal.Ctx) {
 	add("dpr_underflow", txtRegs{Dpr: dpr(0x800, 3, true), HeapBase: 0x7FD00000, HeapSize: 0x300000, SinitBase: 0, SinitSize: 0xF0000000})
 	add("dpr_top4g", txtRegs{Dpr: dpr(0x1000, 4, true), HeapBase: 0xFFF20000, HeapSize: 0xE0000, SinitBase: 0xFFF00000, SinitSize: 0x20000})
 	add("dpr_top4g", txtRegs{Dpr: dpr(0x1000, 4, true), HeapBase: 0xFFF20000, HeapSize: 0xE0000, SinitBase: 0, SinitSize: 0x20000})
+	// boundary families on a DPR [limit-size, limit): each comparison of the check at equality and one page off
+	for _, ts := range [][2]uint32{{0x7B4, 4}, {0x800, 8}, {0x400, 3}} {
+		limit := ts[0] * MiB
+		size := ts[1] * MiB
+		base := limit - size
+		for _, d := range []uint32{0, 0x1000, ^uint32(0xfff)} { // 0, +4K, -4K
+			// SINIT region ending at / around the DPR limit (it may overlap the heap: not this check's business)
+			add("dpr_edge_sinit_end", txtRegs{Dpr: dpr(ts[0], ts[1], true), HeapBase: limit - 0xE0000, HeapSize: 0xE0000, SinitBase: limit - 0x10000 + d, SinitSize: 0x10000})
+			// SINIT region starting at / around the DPR base
+			add("dpr_edge_sinit_base", txtRegs{Dpr: dpr(ts[0], ts[1], true), HeapBase: limit - 0xE0000, HeapSize: 0xE0000, SinitBase: base + d, SinitSize: 0x10000})
+			// heap + SINIT leave exactly / about 2 MiB for the MLE
+			hs := size - 2*MiB - 0x20000 + d
+			add("dpr_edge_mle_room", txtRegs{Dpr: dpr(ts[0], ts[1], true), HeapBase: limit - hs, HeapSize: hs, SinitBase: 0, SinitSize: 0x20000})
+			add("dpr_edge_mle_room", txtRegs{Dpr: dpr(ts[0], ts[1], true), HeapBase: limit - hs, HeapSize: hs, SinitBase: limit - hs - 0x20000, SinitSize: 0x20000})
+			// heap starting at / around the DPR base (fills the region)
+			add("dpr_edge_heap_base", txtRegs{Dpr: dpr(ts[0], ts[1], true), HeapBase: base + d, HeapSize: size - d, SinitBase: 0, SinitSize: 0})
+			// heap end at / around the limit
+			add("dpr_edge_heap_end", txtRegs{Dpr: dpr(ts[0], ts[1], true), HeapBase: limit - 0xE0000 + d, HeapSize: 0xE0000, SinitBase: 0, SinitSize: 0x10000})
+		}
+	}
+	add("dpr_edge_size", txtRegs{Dpr: dpr(0x7B4, 2, true), HeapBase: 0x7B320000, HeapSize: 0xE0000, SinitBase: 0, SinitSize: 0})
+	add("dpr_edge_size", txtRegs{Dpr: dpr(0x7B4, 3, true), HeapBase: 0x7B320000, HeapSize: 0xE0000, SinitBase: 0, SinitSize: 0x10000})
 	for i := 0; i < c.Scale(90, 900); i++ {
 		top := uint32(0x100 + r.Intn(0xE00))
 		if r.Intn(10) == 0 {
